@@ -38,7 +38,12 @@ func init() {
 func checkC06(c *Ctx) {
 	checkFilterSubscriptionTable(c)
 	checkFilterSubscriptionFlows(c)
+	checkFilterPublisherFlows(c)
 	checkFSubDistribute(c)
+	m := newCacheModel(c)
+	m.checkDoUpdate() // parent events pass through the version-aware update: replays are idempotent
+	m.checkDoSync()
+	m.checkDoRefilter()
 	c.floor("T-TABLE(filterSubscription.run)", 20, "23 iteration paths + initial state")
 }
 
@@ -50,6 +55,9 @@ func init() {
 
 func checkC03(c *Ctx) {
 	checkControllerTable(c)
+	checkReadyPlumbing(c) // includes: controller cache built with the builder's filter
+	m := newCacheModel(c)
+	m.checkDoSync() // "never regressing an object to an older version" is the found/EQ|GT rows
 	checkControllerDistribute(c)
 	checkListHelpers(c)
 	checkControllerAPI(c)
@@ -96,6 +104,9 @@ func init() {
 }
 
 func checkC16(c *Ctx) {
+	if c.Tier == "thorough" {
+		checkCallersVTA(c)
+	}
 	checkMonitorTable(c)
 	checkHandlerCallers(c)
 	checkMonitorAPI(c)
@@ -129,6 +140,9 @@ func init() {
 }
 
 func checkC05(c *Ctx) {
+	if c.Tier == "thorough" {
+		checkCallersVTA(c)
+	}
 	checkSubscriptionTable(c)
 	checkPublisherTable(c)
 	checkPublisherFanout(c)
@@ -195,6 +209,9 @@ func typedRelsQuick(c *Ctx) []string {
 }
 
 func checkC10(c *Ctx) {
+	if c.Tier == "thorough" {
+		checkCallersVTA(c)
+	}
 	checkConsumerBuffers(c)
 	runs := findRunFuncs(c.P, []string{""})
 	checkBlockingInventory(c, []string{""}, runs, 55)
@@ -223,6 +240,7 @@ func checkC18(c *Ctx) {
 
 func checkC17(c *Ctx) {
 	checkFilterEquality(c)
+	checkPodsFilters(c, true) // order-independence: sorted copy of the sources before building
 	c.floor("T-COVERS(Equals)", 11, "10 comparable filter types + enumeration")
 	c.floor("T-TABLE(FiltersEqual)", 3, "nil/nil, one nil, comparable, not comparable")
 	c.floor("T-TABLE(compareFilterList)", 5, "length check + 5 cases")
@@ -235,7 +253,7 @@ func init() {
 }
 
 func checkC19(c *Ctx) {
-	checkPodsFilters(c)
+	checkPodsFilters(c, false)
 	checkIngressFilter(c)
 	checkKindFilters(c)
 	c.floor("T-SHAPE(PodsFilter)", 35, "7 siblings x 5 obligations")
@@ -355,6 +373,9 @@ func checkC14(c *Ctx) {
 }
 
 func checkC15(c *Ctx) {
+	if c.Tier == "thorough" {
+		checkCallersVTA(c)
+	}
 	m := newCacheModel(c)
 	m.checkConfinement()
 	checkAtomicHandlers(c)
